@@ -150,6 +150,14 @@ def run(C, R):
                                        'where-clauses do not entail it' % (SHORT[tr], name, f['name'], what,
                                                                            SHORT[ltr], ' > '.join(via)), where,
                                        {'impl': im['id'], 'via': list(via)})
+                        elif kind == 'dyn' and not _erased_in_crate(F, what):
+                            # no function of the crate ever puts a type behind this `dyn`: the pointer comes from the
+                            # user, the trait does not demand the auto trait, so the impl vouches for code it cannot know
+                            R.fail('C16.L2', [name, SHORT[tr], f['name'], 'user-supplied-dyn', '%s: %s' % (what, SHORT[ltr])],
+                                   'unsafe impl %s for %s: field `%s` holds a user-supplied `dyn %s` (via %s); that trait '
+                                   'does not require %s, so the impl promises thread-safety of arbitrary user code' % (
+                                       SHORT[tr], name, f['name'], what, ' > '.join(via), SHORT[ltr]), where,
+                                   {'impl': im['id'], 'via': list(via)})
                         elif kind == 'dyn':
                             # handled by L2e below
                             if im not in dyn_impls:
@@ -261,6 +269,25 @@ def _casts_of_callees(F, fn, ret_adts, casts, depth):
                 sub3 = {k: _subst(v, sub) for k, v in (sub2 or {}).items()}
                 out.append((rv, sub3, cp))
     return out
+
+
+def _erased_in_crate(F, trait_path):
+    """is there an unsizing cast into `dyn <trait>` anywhere in the crate (a crate type put behind the dyn)?"""
+    cache = F.__dict__.setdefault('_unsize_targets', None)
+    if cache is None:
+        cache = []
+        for fn in F.raw['fns']:
+            for b in fn['blocks']:
+                for s in b['stmts']:
+                    rv = s.get('rv') or {}
+                    if 'cast' in rv and 'Unsize' in rv.get('kind', '') and 'dyn ' in rv.get('to', ''):
+                        src = rv.get('from_ty') or {}
+                        inner = (src.get('args') or [None])[0] if src.get('k') == 'adt' else src.get('ty')
+                        if inner is not None and inner.get('k') == 'dyn':
+                            continue    # dyn -> dyn re-coercion (a shorter lifetime): puts no type behind the dyn
+                        cache.append(rv['to'])
+        F.__dict__['_unsize_targets'] = cache
+    return any(('dyn ' + str(trait_path)) in t or str(trait_path) in t for t in cache)
 
 
 def l2e(C, R, F, D, cfg, dyn_impls):
